@@ -121,7 +121,7 @@ func runC17(c *mon.Ctx) {
 	c.Each("midicat", nh, func(i int64, r *mon.Rand) {
 		if c.Thorough() {
 			// vary the scheduler as well
-			procs := []int{1, 2, 4, 16}[i%4]
+			procs := []int{2, 3, 4, 16}[i%4] // not 1: every open in-port runs a spinning control goroutine
 			old := setProcs(procs)
 			defer setProcs(old)
 		}
